@@ -24,7 +24,7 @@ OUTSIDE = "larger widths / more piece types / larger demands; non-integer sizes;
 ASSUMPTIONS = ["true minimum = minimum over non-negative integer combinations of ALL feasible patterns (enumerated from sizes and width)",
                "float() shadowed in solvor.cg / solvor.bp so that symbolic demands can enter the tableau; demands are bounded (unbounded Ints with ceil/ToInt terms time z3 out)"]
 STUBS = ["solvor.cg.float, solvor.bp.float := symbolic float"]
-GOALS = {"quick": ["cg.optimal", "cg.feasible_not_optimal", "cg.custom", "bp.optimal", "bp.custom"], "thorough": ["cg.optimal", "bp.optimal"]}
+GOALS = {"quick": ["cg.optimal", "cg.feasible_not_optimal", "cg.custom", "bp.optimal", "bp.feasible_not_optimal", "bp.custom"], "thorough": ["cg.optimal", "bp.optimal"]}
 OPTS = {"quick": {"qto": 15000, "path_wall": 60.0}, "thorough": {"qto": 30000, "path_wall": 120.0}}
 
 
@@ -167,10 +167,7 @@ def items(tier, rng):
     return out
 
 
-KNOWN_CLASSES = {
-    "bp_optimal_not_minimal": lambda cex: cex["label"] == "bp.optimal_is_the_true_minimum",
-    "bp_demand_missed": lambda cex: cex["label"] == "bp.usable_plan_meets_every_demand",
-}
+KNOWN_CLASSES = {}
 
 
 def params_from_json(p):
